@@ -123,7 +123,18 @@ func (p *Prog) CellStores(a *ssa.Alloc) []ssa.Value {
 func (p *Prog) FieldStores(a *ssa.Alloc, f string) []ssa.Value {
 	tb := p.tb()
 	tb.indexStores(a.Parent())
-	return tb.fstore[a][f]
+	out := tb.fstore[a][f]
+	if len(out) == 0 {
+		// composite literal built in a temporary and copied as a whole
+		for _, w := range tb.stores[a] {
+			if ld, ok := w.(*ssa.UnOp); ok && ld.Op == token.MUL {
+				if a2, ok := tb.resolveAddr(ld.X).(*ssa.Alloc); ok && a2 != a {
+					out = append(out, p.FieldStores(a2, f)...)
+				}
+			}
+		}
+	}
+	return out
 }
 
 func fieldName(t types.Type, idx int) string {
